@@ -7,7 +7,9 @@
 //	case <id> kind=mw alt=less|differs|greater x1=<ints|-> x2=<ints|-> scale=<k> lim=<exact>,<ties> tag=…
 //	info <id> u=<f64 bits> p=<f64 bits> [legacy=<f64 bits>]     raw results (not compared by check.py;
 //	                                                              read by the Lean driver for the 1e-12 tolerance test)
-//	obs  <id> res=ok twoU=<int> p=<12 decimals> [legacy=…] | res=!size | res=!equal
+//	obs  <id> in=kept|mutated res=ok twoU=<int> p=<12 decimals> [legacy=…] | … res=!size | … res=!equal
+//	          (in= : were the argument slices left exactly as passed?)
+//	case <id> kind=limits lim=<exact>,<ties>     the package defaults; obs/sobs echo them
 //	sobs <id> … (same text; judged against the specification)
 //
 //	case <id> kind=dist n1= n2= t=<ints|nil> grid=<lo>:<hi>:<step> tag=…
@@ -121,6 +123,7 @@ func runMW(x1, x2 []int, scale, lim, limT int, alt string, tags string) {
 	}()
 	stats.MannWhitneyExactLimit, stats.MannWhitneyTiesExactLimit = lim, limT
 	f1, f2 := floats(x1, scale), floats(x2, scale)
+	g1, g2 := floats(x1, scale), floats(x2, scale) // pristine copies: the call must not reorder its arguments
 	res, err := stats.MannWhitneyUTest(f1, f2, altVals[alt])
 	info, line := "", ""
 	if err != nil {
@@ -128,6 +131,12 @@ func runMW(x1, x2 []int, scale, lim, limT int, alt string, tags string) {
 	} else {
 		info = "u=" + hx.F64(res.U) + " p=" + hx.F64(res.P)
 		line = fmt.Sprintf("res=ok n=%d,%d twoU=%s p=%s", res.N1, res.N2, twoU(res.U), dec(res.P))
+	}
+	kept := func() string {
+		if sameBits(f1, g1) && sameBits(f2, g2) {
+			return "kept"
+		}
+		return "mutated"
 	}
 	if alt == "differs" {
 		// legacy path: benchstat.UTest is the two-sided test on RValues
@@ -140,9 +149,34 @@ func runMW(x1, x2 []int, scale, lim, limT int, alt string, tags string) {
 			line += " legacy=" + dec(p)
 		}
 	}
+	line = "in=" + kept() + " " + line
 	hx.Printf("info %d %s\n", id, info)
 	hx.Printf("obs %d %s\n", id, line)
 	hx.Printf("sobs %d %s\n", id, line)
+}
+
+func sameBits(a, b []float64) bool {
+	if len(a) != len(b) {
+		return false
+	}
+	for i := range a {
+		if math.Float64bits(a[i]) != math.Float64bits(b[i]) {
+			return false
+		}
+	}
+	return true
+}
+
+// runLimits reports the package's default switch points between the exact and the approximate method.
+func runLimits() {
+	id, ok := mine()
+	if !ok {
+		return
+	}
+	hx.Printf("case %d kind=limits lim=%d,%d tag=limits\n", id, defLim, defLimT)
+	hx.Printf("info %d -\n", id)
+	hx.Printf("obs %d lim=%d,%d\n", id, defLim, defLimT)
+	hx.Printf("sobs %d lim=%d,%d\n", id, defLim, defLimT)
 }
 
 func runMW3(x1, x2 []int, scale, lim, limT int, tags string) {
@@ -395,7 +429,8 @@ func main() {
 	rng := hx.NewRand(11)
 	thorough := hx.Tier() == "thorough"
 
-	// 0. corpus
+	// 0. the default limits, then the corpus
+	runLimits()
 	corpus()
 
 	// 1. errors: empty samples, all-equal samples on both branches
